@@ -555,7 +555,8 @@ def rule_c(ctx):
         f = m.func(WAS, f"{cname}._solve")
         # the right-hand side is located by shape: the one three-part np.concatenate whose middle part is the weighted mass difference
         rhs = [s for s in ast.walk(f.node) if isinstance(s, ast.Assign) and isinstance(s.targets[0], ast.Name) and isinstance(s.value, ast.Call)
-               and norm(s.value.func) == "np.concatenate" and s.value.args and isinstance(s.value.args[0], (ast.List, ast.Tuple)) and len(s.value.args[0].elts) == 3]
+               and norm(s.value.func) in ("np.concatenate", "np.hstack") and s.value.args and isinstance(s.value.args[0], (ast.List, ast.Tuple)) and len(s.value.args[0].elts) == 3]
+        # (np.hstack of one-dimensional parts is np.concatenate; the three parts are checked to be vectors by form below)
         ok = False
         if len(rhs) == 1:
             nm = rhs[0].targets[0].id
